@@ -299,7 +299,7 @@ func TestC14Conc(t *testing.T) {
 	defer rec.Finish(t)
 	rec.Rule("case = one broker; an administrator connection toggles the ban of a key 150-300 times and, after every acknowledgement, uses the key on its own connection (the answer must reflect the toggle just acknowledged) while 6-10 other connections keep presenting the same key concurrently; " +
 		"non-trivial = every case; distinct = (toggles, users, case)")
-	n := vk.N(8, 200)
+	n := vk.N(16, 240)
 	for ci := 0; ci < n; ci++ {
 		if !vk.Mine(ci) {
 			continue
